@@ -17,8 +17,15 @@ fn values(sh: Shape, signed: bool) -> BoxedStrategy<Pat> {
     let w = sh.bits() as u64;
     let wrap = move |z: Z| Pat(z.to_le_wrapped(sh.bytes));
     let db = sh.digit_bytes;
+    let dbits = sh.digit_bits();
+    let dec_bases: Vec<u64> = (1u32..20).map(|k| 10u64.pow(k)).filter(|&b| dbits == 64 || b < (1u64 << dbits)).collect();
+    let aligned = (proptest::sample::select(dec_bases).prop_flat_map(move |b| gen::base_aligned(sh, b)), any::<bool>()).prop_map(move |(p, neg)| {
+        if neg && signed { wrap(Z::from_le_unsigned(&p.0).mod_2k(w - 1).neg()) } else { p }
+    });
     prop_oneof![
         3 => gen::pattern(sh),
+        // binary-aligned small multiples of the powers of ten that fit a digit (short-division boundary of the decimal conversion)
+        3 => aligned,
         // interior zero digits / digits with leading zero nibbles (skipped or mis-padded interior digits)
         3 => proptest::collection::vec(prop_oneof![3 => Just(0u64), 2 => Just(1u64), 1 => Just(0x0fu64), 1 => Just(0x10u64), 1 => 0u64..256, 2 => any::<u64>()], sh.n()).prop_map(move |ds| {
             let mut v = Vec::new();
